@@ -608,6 +608,11 @@ def r_analytic(ctx, a):
     for t, (i, l) in enumerate(idx):
         m = abs(int(G_.own_m[i]))
         q = legendre_q(l, m)
+        # the unnormalised closed form has coefficients ~ (2l)!/(2^l l!): beyond 1e308 for l ~ 200 (float conversion of the
+        # exact value overflowed on the M = 200 grid of the thorough tier). The normalisation is fitted below anyway
+        # (alpha, beta), so the polynomial is scaled to max |coefficient| = 1 first; exact in Fractions.
+        _mx = max(abs(c_) for c_ in q) or Fraction(1)
+        q = tuple(c_ / _mx for c_ in q)
         A = cos2 ** (m / 2.0) * _peval(list(q), muq)                       # P_l^m(mu_j) up to sign/normalisation
         q1 = cosdtheta(q, m)
         A1 = cos2 ** (m / 2.0) * _peval(q1, muq)                           # cos d/dtheta
